@@ -26,11 +26,28 @@ RULE = ("real static squareroot() of qmail-send.c on every age in [0,2^%(sq)s) p
         "to LONG_MAX) compared with the wrapped-arithmetic model; %(np)s pqadd()/pqfail scenarios through the real pass_do()+pqadd() "
         "with per-file stat outcomes exists/ENOENT/EIO for info, todo, local, remote (all four heaps compared after each call; oracle: "
         "message never lost from all heaps, enters a channel heap only with the file's mtime, pqfail re-insertion in the future); "
-        "SLEEP_SYSFAIL printed by the harness and compared. ASan+UBSan build of the working tree. "
-        "non-trivial = in-domain root evaluations + retry cases + distinct op sequences of length >= 3 + distinct histories + distinct pqfail scenarios")
+        "SLEEP_SYSFAIL printed by the harness and compared. SELECT LOOP (harness/c15_loop.c): %(nw)s seeded scenarios in which the real "
+        "main() of qmail-send (with the real qmail-clean) runs under qsim with a discrete-event virtual clock - select() is the only place "
+        "where time passes: it returns at once if a descriptor is ready, otherwise the clock jumps to the earlier of clock+tv_sec and the "
+        "next external event; deliveries take scripted virtual durations (0 s .. 100 min), so a channel (either one, or both) sits in the "
+        "middle of a pass with every delivery slot taken (concurrency 1-3 from the control file or from the spawner's byte, more "
+        "recipients than slots) while entries on the other channel's heap, on its own heap, in pqdone (bounce injection scripted to "
+        "fail: now+SLEEP_SYSFAIL) and in pqfail (one stat() of the start-up scan fails with EIO, found by a pre-run) become due at "
+        "spread-out times, plus later arrivals through todo/, ALRM, short lifetimes, and a fifth of the scenarios without a busy channel; "
+        "at every select the daemon's globals are read and printed with the timeout the real code passed and the clock at which select "
+        "returned (oracle = executable form of theorem C15_sleep_not_through on these values: the daemon never wakes more than SLEEP_FUZZ "
+        "after the due time of an entry it could start - head of the heap of a channel that is not mid-pass with a job slot free, head of "
+        "pqfail, head of pqdone - having really slept; a daemon that uses up its select budget is reported too; correspondence: the "
+        "timeout equals Nq.SelPrep.timeout of the snapshot at every select). ASan+UBSan build of the working tree. "
+        "non-trivial = in-domain root evaluations + retry cases + distinct op sequences of length >= 3 + distinct histories + distinct pqfail scenarios "
+        "+ distinct select-loop scenarios")
 
-QUICK = dict(sq=28, pq=8, nr=300, nh=4000, st=5, np=1016)
-THOROUGH = dict(sq=32, pq=10, nr=3000, nh=20000, st=1, np=5016)
+QUICK = dict(sq=28, pq=8, nr=300, nh=4000, st=5, np=1016, nw=640)
+THOROUGH = dict(sq=32, pq=10, nr=3000, nh=20000, st=1, np=5016, nw=16000)
+
+# qmail-send globals that harness/c15_loop.c reads at every select (kept global in the qs instance; everything else is localised)
+LOOP_GLOBALS = ["auto_split", "flagexitasap", "flagspawnalive", "flagcleanup", "numjobs", "recent", "nexttodorun", "cleanuptime", "pass", "jo",
+                "pqdone", "pqchan", "pqfail", "comm_buf", "concurrency", "concurrencyused", "tododir"]
 
 
 def neighbourhood_cases(dis, seed):
@@ -88,6 +105,24 @@ def neighbourhood_cases(dis, seed):
                     for one in fs.split(","):          # each message alone
                         i = one.split(":")[0]
                         cases.append("P %d %d %d:%s %s 2" % (rc, nw, rc - 1, i, one))
+            elif p[0] == "W" and len(f) > 2:
+                scen = f[2:]                                # W,<scenario>: the scenario contains commas itself
+                cases.append("W " + scen)
+                fl = [x for x in scen.split("/") if x]
+                def withf(key, val, base=None):
+                    b = fl if base is None else [x for x in base.split("/") if x]
+                    return "/".join([x for x in b if not x.startswith(key + "=")] + ([key + "=" + val] if val is not None else []))
+                for e in ("700", "1400", "2000", "3200"):
+                    cases.append("W " + withf("end", e))
+                for dd in ("1000", "1700,1700,1700,5", "0", "30,2500"):
+                    cases.append("W " + withf("dur", dd))
+                for k in ("bf", "sf", "sig", "life"):
+                    cases.append("W " + withf(k, None))
+                for a in ("1", "2", "3"):
+                    for b in ("1", "2", "3"):
+                        cases.append("W " + withf("cr", b, withf("cl", a)))
+                for o in ("Z", "K", "D", "ZD"):
+                    cases.append("W " + withf("out", o))
             elif p[0] == "S" and len(p) >= 3:
                 lt, script = p[1], f.split(",", 2)[2]      # the script itself contains commas
                 steps = script.split(";")
@@ -116,6 +151,8 @@ def replay_cases(path, tmpdir):
     elif tag == "S":
         p = f.split(",", 2)
         line = "S %s %s" % (p[1], p[2]) if len(p) == 3 else ""
+    elif tag == "W":
+        line = "W " + f[2:]
     elif tag == "P":
         m = re.match(r"P,(-?\d+),(-?\d+),((?:-?\d+:\d+,?)+|-),((?:\d+:[^:,]+:[^:,]+:[^:,]+:[^:,]+,?)+|-),(\d+)", f)
         line = "P %s %s %s %s %s" % (m.group(1), m.group(2), m.group(3).rstrip(","), m.group(4).rstrip(","), m.group(5)) if m else ""
@@ -138,14 +175,23 @@ def main():
             h = s.cc(os.path.join(VERIF, "harness/c15_sched.c"), os.path.join(s.dir, "h_c15"),
                      link_like="qmail-send", objs_exclude=["qsutil.o"])
             drv = driver_path("drv_c15")
+            # the select-loop leg: the real main() of qmail-send and qmail-clean as qsim program instances (harness/c15_loop.c)
+            o1, e1 = s.prog_object("qs", "qmail-send.c", "qmail-send", keep_globals=LOOP_GLOBALS, objs_exclude=["qmail.o"])
+            o2, e2 = s.prog_object("qc", "qmail-clean.c", "qmail-clean")
+            hl = s.cc(os.path.join(VERIF, "harness/c15_loop.c"), os.path.join(s.dir, "h_c15loop"),
+                      extra="%s/harness/sim.c %s %s %s %s -lpthread -ldl" % (VERIF, o1, o2, e1, e2))
             cmds = []
             corpus = os.path.join(VERIF, "corpus", "C15.txt")
             if c.replay:
-                cmds.append("%s - < %s" % (h, replay_cases(c.replay, s.dir)))
+                rc_ = replay_cases(c.replay, s.dir)
+                cmds.append("%s - < %s" % (h, rc_))
+                cmds.append("%s - < %s" % (hl, rc_))          # each harness ignores the other's case lines
             else:
                 if os.path.exists(corpus):
                     cmds.append("%s - < %s" % (h, corpus))
+                    cmds.append("%s - < %s" % (hl, corpus))
                 cmds += ["%s %d %d %d %d %d %d %d" % (h, P["sq"], P["pq"], P["nr"], P["nh"], c.seed, i, NCPU) for i in range(NCPU)]
+                cmds += ["%s %d %d %d %d" % (hl, P["nw"], c.seed, i, NCPU) for i in range(NCPU)]
             outs = run_pipeline(cmds, drv, cwd=s.dir)
             stats, samples, disagree, oracle, errors = parse_driver_output(outs)
 
@@ -155,7 +201,7 @@ def main():
                     return None
                 tf = os.path.join(s.dir, "nb.txt")
                 open(tf, "w").write("\n".join(cases) + "\n")
-                o2 = run_pipeline(["%s - < %s" % (h, tf)], drv, cwd=s.dir)
+                o2 = run_pipeline(["%s - < %s" % (h, tf), "%s - < %s" % (hl, tf)], drv, cwd=s.dir)
                 st2, _, _, or2, _ = parse_driver_output(o2)
                 c.cov["search_cases"] = st2.get("cases", 0)
                 return shortest(or2) if or2 else None
@@ -178,12 +224,14 @@ def main():
         "allocation failure (prioq_readyplus, nomem loops) is not modelled",
         "system failures are injected by wrapping stat/unlink/open_read inside the included qmail-send.c (EIO on chosen paths); the paths 'trouble reading' (getln fails mid-pass) and 'unknown record type' are covered by theorem C15_jobclose (hiteof=false) but not driven by the harness; utimes failure in pqfinish and messdone's own failure path (pqdone re-insertion) are outside the model",
         "nextretry overflow: C signed overflow is undefined behaviour; the complement theorem C15_overflow_wraps describes the two's-complement result, which is not exercised on the UBSan build",
-        "the history harness drives pass_dochan/del_dochan/pqrun/pqfinish/pqstart directly (not through main()'s select loop); the loop itself belongs to the Daemon model (C03/C04/C16)",
+        "the history harness (S cases) drives pass_dochan/del_dochan/pqrun/pqfinish/pqstart directly; main()'s select loop is exercised by the W scenarios (real main() under qsim), where time passes only inside select(): the clock read by recent = now() is the clock at which select() is entered",
+        "the model of the select preparation (Nq.SelPrep: timeout, wake-up time) is the one of C16; C15 imports it read-only, states the promptness theorems C15_sleep_* over it and compares it with the real timeout at every select of the W scenarios",
+        "select-loop snapshot: between recent = now() and select() the main loop only runs the *_selprep functions, which do not write the globals they read; the struct mirrors in harness/c15_loop.c (pass[].id, jo[].refs) follow qmail-send.c",
     ]
     standard_verdict(c, ok, stats, disagree, oracle, errors,
-                     "Nq.Sched (squareroot/nextretry/PQ/passStart/jobOpen/report/pqrun/pqfinish/pqstart/passTrouble/jobCloseF/pqaddF/passDoFail) and Nq.SchedHist.step vs qmail-send.c + prioq.c",
+                     "Nq.Sched (squareroot/nextretry/PQ/passStart/jobOpen/report/pqrun/pqfinish/pqstart/passTrouble/jobCloseF/pqaddF/passDoFail) and Nq.SchedHist.step vs qmail-send.c + prioq.c; Nq.SelPrep.timeout vs the select timeout of qmail-send.c main() on snapshots of its globals",
                      neighbourhood,
-                     replay_hint="./check C15 --replay <file of stdin cases for harness/c15_sched.c: Q lo hi | N birth recent chan | H ops | S lifetime script | P recent now pqfail files ncalls>")
+                     replay_hint="./check C15 --replay <file of stdin cases for harness/c15_sched.c: Q lo hi | N birth recent chan | H ops | S lifetime script | P recent now pqfail files ncalls; for harness/c15_loop.c: W scenario> (or the replay JSON itself)")
     c.finish()
 
 
